@@ -15,6 +15,7 @@ and a final `SUMMARY …` line with counters. Core-only; built as a native execu
 import Std.Data.HashMap
 import Klev
 import Klev.Proto
+import Driver.Bytes
 open Klev Klev.Proto
 
 structure Side where
@@ -342,6 +343,10 @@ def handle (sd : Side) (op : List String) (impl : List String) : Handled :=
           | "upd" => Helpers.findUpdates l x
           | _ => Helpers.findDeletes l x
         { side := { sd with mlog := some l1 }, model := fmtOut fmtInts r, viols := v }
+  | "wlog" :: _ => let (m, v) := DBytes.handleBytes op impl; { side := sd, model := m, viols := v }
+  | "widx" :: _ => let (m, v) := DBytes.handleBytes op impl; { side := sd, model := m, viols := v }
+  | "segcheck" :: _ => let (m, v) := DBytes.handleBytes op impl; { side := sd, model := m, viols := v }
+  | "segrecover" :: _ => let (m, v) := DBytes.handleBytes op impl; { side := sd, model := m, viols := v }
   | [grp, kind, a, mflag] =>
     if grp = "trim" ∨ grp = "compact" then
       match a.toInt? with
